@@ -311,3 +311,85 @@ theorem strip_eq_of_enc {t v bs bs'} (h : Enc t v bs) (h' : Enc t v bs') : strip
 
 #print axioms compact_inj
 end Vl
+
+namespace Vl
+/-- **canonicity of the compact decoder**: whatever it accepts is the compact encoding of the
+well-typed value it returns, followed by exactly the rest -/
+theorem decCompact_canonical : ∀ (t : Ty) (bs : List Bool) (v : Val) (r : List Bool),
+    decCompact t bs = some (v, r) → bs = compact v ++ r ∧ HasTy v t
+  | .one, bs, v, r, h => by simp [decCompact] at h; obtain ⟨rfl, rfl⟩ := h; exact ⟨rfl, .unit⟩
+  | .sum a b, [], v, r, h => by simp [decCompact] at h
+  | .sum a b, false :: bs, v, r, h => by
+    simp only [decCompact, Option.map_eq_some_iff] at h
+    obtain ⟨⟨v', r'⟩, h1, h2⟩ := h
+    cases h2
+    obtain ⟨e, ht⟩ := decCompact_canonical a bs v' r' h1
+    exact ⟨by simp [compact, e], .inl ht⟩
+  | .sum a b, true :: bs, v, r, h => by
+    simp only [decCompact, Option.map_eq_some_iff] at h
+    obtain ⟨⟨v', r'⟩, h1, h2⟩ := h
+    cases h2
+    obtain ⟨e, ht⟩ := decCompact_canonical b bs v' r' h1
+    exact ⟨by simp [compact, e], .inr ht⟩
+  | .prod a b, bs, v, r, h => by
+    simp only [decCompact] at h
+    cases h1 : decCompact a bs with
+    | none => simp [h1] at h
+    | some p =>
+      obtain ⟨x, r1⟩ := p
+      simp only [h1, Option.map_eq_some_iff] at h
+      obtain ⟨⟨y, r2⟩, h2, h3⟩ := h
+      cases h3
+      obtain ⟨e1, t1⟩ := decCompact_canonical a bs x r1 h1
+      obtain ⟨e2, t2⟩ := decCompact_canonical b r1 y r2 h2
+      exact ⟨by simp [compact, e1, e2], .pair t1 t2⟩
+
+/-- the witness stream: the compact encodings of the witness values, in node order -/
+def encWitness : List Val → List Bool
+  | [] => []
+  | v :: vs => compact v ++ encWitness vs
+
+/-- read one value per witness node, with that node's (inferred) target type -/
+def decWitness : List Ty → List Bool → Option (List Val × List Bool)
+  | [], bs => some ([], bs)
+  | t :: ts, bs =>
+    match decCompact t bs with
+    | none => none
+    | some (v, r) => (decWitness ts r).map fun (vs, r') => (v :: vs, r')
+
+/-- values matching the types one by one -/
+def HasTys : List Val → List Ty → Prop
+  | [], [] => True
+  | v :: vs, t :: ts => HasTy v t ∧ HasTys vs ts
+  | _, _ => False
+
+theorem decWitness_encWitness : ∀ (vs : List Val) (ts : List Ty) (rest : List Bool), HasTys vs ts →
+    decWitness ts (encWitness vs ++ rest) = some (vs, rest)
+  | [], [], _, _ => rfl
+  | v :: vs, t :: ts, rest, h => by
+    simp only [encWitness, decWitness, List.append_assoc]
+    rw [decCompact_compact h.1]
+    simp only []
+    rw [decWitness_encWitness vs ts rest h.2]; rfl
+  | [], _ :: _, _, h => h.elim
+  | _ :: _, [], _, h => h.elim
+
+theorem decWitness_canonical : ∀ (ts : List Ty) (bs : List Bool) (vs : List Val) (r : List Bool),
+    decWitness ts bs = some (vs, r) → bs = encWitness vs ++ r ∧ HasTys vs ts
+  | [], bs, vs, r, h => by simp [decWitness] at h; obtain ⟨rfl, rfl⟩ := h; exact ⟨rfl, trivial⟩
+  | t :: ts, bs, vs, r, h => by
+    simp only [decWitness] at h
+    cases h1 : decCompact t bs with
+    | none => simp [h1] at h
+    | some p =>
+      obtain ⟨v, r1⟩ := p
+      simp only [h1, Option.map_eq_some_iff] at h
+      obtain ⟨⟨vs', r2⟩, h2, h3⟩ := h
+      cases h3
+      obtain ⟨e1, t1⟩ := decCompact_canonical t bs v r1 h1
+      obtain ⟨e2, t2⟩ := decWitness_canonical ts r1 vs' r2 h2
+      exact ⟨by simp [encWitness, e1, e2], t1, t2⟩
+
+#print axioms decWitness_encWitness
+#print axioms decWitness_canonical
+end Vl
